@@ -421,6 +421,444 @@ theorem bigCmp_cases (x y : Int) :
     · right; left; simp [h2]
     · right; right; simp [h1, h2]; omega
 
+
+/-! ### shifts -/
+
+
+/-- floor division by a positive `Q` gives 0 exactly on `[0, Q)` and -1 exactly on `[-Q, 0)` -/
+theorem ediv_zero_range (x Q : Int) (hQ : 0 < Q) (h : x / Q = 0) : 0 ≤ x ∧ x < Q := by
+  have h1 := Int.mul_ediv_add_emod x Q
+  have h2 := Int.emod_nonneg x (Int.ne_of_gt hQ)
+  have h3 := Int.emod_lt_of_pos x hQ
+  rw [h] at h1
+  simp at h1
+  omega
+
+theorem ediv_negOne_range (x Q : Int) (hQ : 0 < Q) (h : x / Q = -1) : -Q ≤ x ∧ x < 0 := by
+  have h1 := Int.mul_ediv_add_emod x Q
+  have h2 := Int.emod_nonneg x (Int.ne_of_gt hQ)
+  have h3 := Int.emod_lt_of_pos x hQ
+  rw [h] at h1
+  omega
+
+theorem toNat_cast_eq (i : I64) : ∃ c : Int, (i.toNat : Int) = i.toInt + c * 2^64 := by
+  rw [BitVec.toInt_eq_toNat_cond]
+  split
+  · exact ⟨0, by omega⟩
+  · refine ⟨1, ?_⟩
+    have := i.isLt
+    omega
+
+/-- a left shift whose exact result fits the word is exact -/
+theorem shl_toInt_of_fits (i : I64) (k : Nat)
+    (h : -(2^63 : Int) ≤ i.toInt * 2^k ∧ i.toInt * 2^k < 2^63) : (i <<< k).toInt = i.toInt * 2^k := by
+  rw [BitVec.toInt_shiftLeft, Nat.shiftLeft_eq]
+  obtain ⟨c, hc⟩ := toNat_cast_eq i
+  have e : ((i.toNat * 2^k : Nat) : Int) = i.toInt * 2^k + (c * 2^k) * ((2^64 : Nat) : Int) := by
+    have e64 : ((2^64 : Nat) : Int) = 2^64 := by decide
+    rw [Int.natCast_mul, hc, Int.natCast_pow, e64, Int.add_mul]
+    congr 1
+    rw [Int.mul_assoc, Int.mul_assoc, Int.mul_comm (2^64 : Int)]
+    rfl
+  rw [e, Int.add_mul_bmod_self_right, Int.bmod_def]
+  generalize i.toInt * 2^k = y at *
+  omega
+
+theorem count_toNat (o : I64) (h0 : 0 ≤ o.toInt) : (o.toNat : Int) = o.toInt := by
+  rw [BitVec.toInt_eq_toNat_cond] at h0 ⊢
+  have := o.isLt
+  split at h0 <;> rename_i hh <;> simp only [hh, if_true, if_false] <;> omega
+
+theorem lsh_inWord_sound (i o : I64) (ho0 : 0 ≤ o.toInt) (ho : o.toInt ≤ 63)
+    (htest : (!((BitVec.slt i 0#64 && BitVec.sshiftRight i (63#64 - o).toNat != -1#64) ||
+              (BitVec.slt 0#64 i && BitVec.sshiftRight i (63#64 - o).toNat != 0#64))) = true) :
+    -(2^63 : Int) ≤ i.toInt * 2^o.toNat ∧ i.toInt * 2^o.toNat < 2^63 := by
+  have hk := count_toNat o ho0
+  have hkn : o.toNat ≤ 63 := by omega
+  have hsub : (63#64 - o).toNat = 63 - o.toNat := by
+    rw [BitVec.toNat_sub]; have := o.isLt; simp; omega
+  rw [hsub] at htest
+  generalize hkdef : o.toNat = k at *
+  have hpow : (2:Int)^(63 - k) * 2^k = 2^63 := by
+    rw [← Int.pow_add]; congr 1; omega
+  have hQ : (0:Int) < 2^(63-k) := Int.pow_pos (by decide)
+  have hP : (0:Int) < 2^k := Int.pow_pos (by decide)
+  have hcomp : (BitVec.sshiftRight i (63 - k)).toInt = i.toInt / 2^(63-k) := by
+    rw [BitVec.toInt_sshiftRight, Int.shiftRight_eq_div_pow]; norm_cast
+  have hb := toInt_bounds i
+  by_cases hneg : i.toInt < 0
+  · have hs : BitVec.slt i 0#64 = true := by simp [BitVec.slt, hneg]
+    have hs2 : BitVec.slt 0#64 i = false := by simp [BitVec.slt]; omega
+    simp only [hs, hs2, Bool.true_and, Bool.false_and, Bool.or_false, Bool.not_eq_true', bne_eq_false_iff_eq] at htest
+    have hc1 : i.toInt / 2^(63-k) = -1 := by rw [← hcomp, htest]; decide
+    have hr := ediv_negOne_range _ _ hQ hc1
+    have := Int.mul_le_mul_of_nonneg_right hr.1 (Int.le_of_lt hP)
+    have hz := Int.mul_neg_of_neg_of_pos hneg hP
+    rw [Int.neg_mul, hpow] at this
+    omega
+  · by_cases hzero : i.toInt = 0
+    · rw [hzero]; simp
+    · have hpos : 0 < i.toInt := by omega
+      have hs : BitVec.slt i 0#64 = false := by simp [BitVec.slt]; omega
+      have hs2 : BitVec.slt 0#64 i = true := by simp [BitVec.slt, hpos]
+      simp only [hs, hs2, Bool.true_and, Bool.false_and, Bool.false_or, Bool.not_eq_true', bne_eq_false_iff_eq] at htest
+      have hc1 : i.toInt / 2^(63-k) = 0 := by rw [← hcomp, htest]; decide
+      have hr := ediv_zero_range _ _ hQ hc1
+      have := Int.mul_lt_mul_of_pos_right hr.2 hP
+      have hz := Int.mul_pos hpos hP
+      rw [hpow] at this
+      omega
+
+/-- the exact meaning of `a << n` for an integer count: `a * 2^n`, and the floor shift for `n < 0` -/
+def shlSpec (x n : Int) : Int := if 0 ≤ n then x * 2 ^ n.toNat else x >>> (-n).toNat
+
+theorem slt_zero_false (o : I64) (h : 0 ≤ o.toInt) : BitVec.slt o 0#64 = false := by
+  simp [BitVec.slt]; omega
+
+theorem slt_zero_true (o : I64) (h : o.toInt < 0) : BitVec.slt o 0#64 = true := by
+  simp [BitVec.slt, h]
+
+theorem neg_count (o : I64) (h : o.toInt < 0) (hmin : -(2^63 : Int) < o.toInt) :
+    (-o).toInt = -o.toInt ∧ (-o).toNat = (-o.toInt).toNat := by
+  have hb := toInt_bounds o
+  have h1 : (-o).toInt = -o.toInt := by
+    rw [BitVec.toInt_neg, Int.bmod_def]; omega
+  refine ⟨h1, ?_⟩
+  have := count_toNat (-o) (by omega)
+  omega
+
+theorem S.rshCore_spec (i o : I64) (ho : 0 ≤ o.toInt) :
+    ∃ v, S.rshCore i o = .val v ∧ v.Is (i.toInt >>> o.toNat) := by
+  unfold S.rshCore
+  rw [slt_zero_false o ho]
+  exact ⟨_, rfl, small_is _ _ BitVec.toInt_sshiftRight⟩
+
+theorem S.lshCore_spec (i o : I64) (ho : 0 ≤ o.toInt) :
+    ∃ v, S.lshCore i o = .val v ∧ v.Is (i.toInt * 2 ^ o.toNat) := by
+  unfold S.lshCore
+  rw [slt_zero_false o ho]
+  simp only [Bool.false_eq_true, if_false]
+  by_cases hin : S.lshInWord i o = true
+  · rw [if_pos hin]
+    refine ⟨_, rfl, small_is _ _ ?_⟩
+    unfold S.lshInWord at hin
+    by_cases hle : BitVec.sle o 63#64 = true
+    · rw [if_pos hle] at hin
+      have ho63 : o.toInt ≤ 63 := by
+        have : (63#64 : I64).toInt = 63 := by decide
+        simpa [BitVec.sle, this] using hle
+      exact shl_toInt_of_fits i o.toNat (lsh_inWord_sound i o ho ho63 hin)
+    · rw [if_neg hle] at hin; cases hin
+  · rw [if_neg hin]
+    refine ⟨_, rfl, ?_⟩
+    rw [Int.shiftLeft_eq]
+    exact ofBig_is _
+
+theorem S.lshSmall_spec (i o : I64) (hmin : -(2^63 : Int) < o.toInt) :
+    ∃ v, S.lshSmall i o = .val v ∧ v.Is (shlSpec i.toInt o.toInt) := by
+  unfold S.lshSmall shlSpec
+  by_cases h : o.toInt < 0
+  · obtain ⟨h1, h2⟩ := neg_count o h hmin
+    rw [slt_zero_true o h, if_pos rfl, if_neg (by omega), ← h2]
+    exact S.rshCore_spec i (-o) (by omega)
+  · rw [slt_zero_false o (by omega)]
+    simp only [Bool.false_eq_true, if_false]
+    rw [if_pos (show 0 ≤ o.toInt by omega)]
+    have := count_toNat o (by omega)
+    have e : o.toInt.toNat = o.toNat := by omega
+    rw [e]
+    exact S.lshCore_spec i o (by omega)
+
+theorem S.rshSmall_spec (i o : I64) (hmin : -(2^63 : Int) < o.toInt) :
+    ∃ v, S.rshSmall i o = .val v ∧ v.Is (shlSpec i.toInt (-o.toInt)) := by
+  unfold S.rshSmall shlSpec
+  by_cases h : o.toInt < 0
+  · obtain ⟨h1, h2⟩ := neg_count o h hmin
+    rw [slt_zero_true o h, if_pos rfl, if_pos (by omega), ← h2]
+    exact S.lshCore_spec i (-o) (by omega)
+  · rw [slt_zero_false o (by omega)]
+    simp only [Bool.false_eq_true, if_false]
+    have := count_toNat o (by omega)
+    by_cases h0 : o.toInt = 0
+    · have e : o.toNat = 0 := by omega
+      rw [if_pos (by omega), h0, e]
+      refine ⟨_, rfl, small_is _ _ ?_⟩
+      simp
+    · have e : (- -o.toInt).toNat = o.toNat := by omega
+      rw [if_neg (by omega), e]
+      exact ⟨_, rfl, small_is _ _ BitVec.toInt_sshiftRight⟩
+
+theorem fits64_of_open (z : Int) (h : -(2^63 : Int) < z ∧ z < 2^63) : fits64 z = true := by
+  rw [fits64_iff]; omega
+
+theorem S.lshBig_spec (i : I64) (z : Int) (hz : -(2^63 : Int) < z ∧ z < 2^63) :
+    ∃ v, S.lshBig i z = .val v ∧ v.Is (shlSpec i.toInt z) := by
+  have hf := fits64_of_open z hz
+  have ht := toSmall_toInt z hf
+  have := S.lshSmall_spec i (toSmall z) (by omega)
+  rw [ht] at this
+  simpa [S.lshBig, S.lshSmall, hf] using this
+
+theorem S.rshBig_spec (i : I64) (z : Int) (hz : -(2^63 : Int) < z ∧ z < 2^63) :
+    ∃ v, S.rshBig i z = .val v ∧ v.Is (shlSpec i.toInt (-z)) := by
+  have hf := fits64_of_open z hz
+  have ht := toSmall_toInt z hf
+  have := S.rshSmall_spec i (toSmall z) (by omega)
+  rw [ht] at this
+  simpa [S.rshBig, S.rshSmall, hf] using this
+
+/-- result of a shift on a `BigInt` receiver: exact value; normal whenever the receiver is -/
+def IntV.IsN (v : IntV) (z : Int) (recvNormal : Prop) : Prop := v.den = z ∧ (recvNormal → v.Normal)
+
+theorem mul_pow_not_fits (z : Int) (k : Nat) (h : fits64 z = false) : fits64 (z * 2 ^ k) = false := by
+  rw [fits64_false_iff] at h ⊢
+  have hP : (1 : Int) ≤ 2 ^ k := by
+    have : (0:Int) < 2^k := Int.pow_pos (by decide)
+    omega
+  rcases h with h | h
+  · left
+    have := Int.mul_le_mul_of_nonpos_left (a := z) (by omega) hP
+    rw [Int.mul_one] at this
+    omega
+  · right
+    have := Int.mul_le_mul_of_nonneg_left hP (show 0 ≤ z by omega)
+    rw [Int.mul_one] at this
+    omega
+
+theorem B.rshCore_spec (z : Int) (o : I64) (ho : 0 ≤ o.toInt) :
+    ∃ v, B.rshCore z o = .val v ∧ v.Is (z >>> o.toNat) := by
+  unfold B.rshCore
+  rw [slt_zero_false o ho]
+  exact ⟨_, rfl, ofBig_is _⟩
+
+theorem B.lshCore_spec (z : Int) (o : I64) (ho : 0 ≤ o.toInt) :
+    ∃ v, B.lshCore z o = .val v ∧ v.IsN (z * 2 ^ o.toNat) (fits64 z = false) := by
+  unfold B.lshCore
+  rw [slt_zero_false o ho]
+  refine ⟨_, rfl, ?_, ?_⟩
+  · show z <<< o.toNat = _; rw [Int.shiftLeft_eq]
+  · intro hn; show fits64 (z <<< o.toNat) = false
+    rw [Int.shiftLeft_eq]; exact mul_pow_not_fits z _ hn
+
+theorem is_isN {v : IntV} {z : Int} {p : Prop} (h : v.Is z) : v.IsN z p := ⟨h.1, fun _ => h.2⟩
+
+theorem B.lshSmall_spec (z : Int) (o : I64) (hmin : -(2^63 : Int) < o.toInt) :
+    ∃ v, B.lshSmall z o = .val v ∧ v.IsN (shlSpec z o.toInt) (fits64 z = false) := by
+  unfold B.lshSmall shlSpec
+  by_cases h : o.toInt < 0
+  · obtain ⟨h1, h2⟩ := neg_count o h hmin
+    rw [slt_zero_true o h, if_pos rfl, if_neg (by omega), ← h2]
+    obtain ⟨v, hv, hi⟩ := B.rshCore_spec z (-o) (by omega)
+    exact ⟨v, hv, is_isN hi⟩
+  · rw [slt_zero_false o (by omega)]
+    simp only [Bool.false_eq_true, if_false]
+    rw [if_pos (show 0 ≤ o.toInt by omega)]
+    have := count_toNat o (by omega)
+    have e : o.toInt.toNat = o.toNat := by omega
+    rw [e]
+    exact B.lshCore_spec z o (by omega)
+
+theorem B.rshSmall_spec (z : Int) (o : I64) (hmin : -(2^63 : Int) < o.toInt) :
+    ∃ v, B.rshSmall z o = .val v ∧ v.IsN (shlSpec z (-o.toInt)) (fits64 z = false) := by
+  unfold B.rshSmall shlSpec
+  by_cases h : o.toInt < 0
+  · obtain ⟨h1, h2⟩ := neg_count o h hmin
+    rw [slt_zero_true o h, if_pos rfl, if_pos (by omega), ← h2]
+    exact B.lshCore_spec z (-o) (by omega)
+  · rw [slt_zero_false o (by omega)]
+    simp only [Bool.false_eq_true, if_false]
+    have := count_toNat o (by omega)
+    obtain ⟨v, hv, hi⟩ := B.rshCore_spec z o (by omega)
+    refine ⟨v, hv, ?_⟩
+    by_cases h0 : o.toInt = 0
+    · have e : o.toNat = 0 := by omega
+      rw [if_pos (by omega), h0]
+      rw [e] at hi
+      simp only [Int.neg_zero, Int.toNat_zero, Int.pow_zero, Int.mul_one]
+      simpa using is_isN hi
+    · have e : (- -o.toInt).toNat = o.toNat := by omega
+      rw [if_neg (by omega), e]
+      exact is_isN hi
+
+theorem B.lshBig_spec (z w : Int) (hw : -(2^63 : Int) < w ∧ w < 2^63) :
+    ∃ v, B.lshBig z w = .val v ∧ v.IsN (shlSpec z w) (fits64 z = false) := by
+  have hf := fits64_of_open w hw
+  have ht := toSmall_toInt w hf
+  have := B.lshSmall_spec z (toSmall w) (by omega)
+  rw [ht] at this
+  simpa [B.lshBig, hf] using this
+
+theorem B.rshBig_spec (z w : Int) (hw : -(2^63 : Int) < w ∧ w < 2^63) :
+    ∃ v, B.rshBig z w = .val v ∧ v.IsN (shlSpec z (-w)) (fits64 z = false) := by
+  have hf := fits64_of_open w hw
+  have ht := toSmall_toInt w hf
+  have := B.rshSmall_spec z (toSmall w) (by omega)
+  rw [ht] at this
+  simpa [B.rshBig, hf] using this
+
+theorem binVal_shl (a b : IntV) (hn : -(2^63 : Int) < b.den ∧ b.den < 2^63) :
+    ∃ v, binVal .shl a b = .val v ∧ v.IsN (shlSpec a.den b.den) a.Normal := by
+  cases a <;> cases b <;> simp only [IntV.den] at hn ⊢
+  · obtain ⟨v, hv, hi⟩ := S.lshSmall_spec _ _ hn.1; exact ⟨v, hv, is_isN hi⟩
+  · obtain ⟨v, hv, hi⟩ := S.lshBig_spec _ _ hn; exact ⟨v, hv, is_isN hi⟩
+  · exact B.lshSmall_spec _ _ hn.1
+  · exact B.lshBig_spec _ _ hn
+
+theorem binVal_shr (a b : IntV) (hn : -(2^63 : Int) < b.den ∧ b.den < 2^63) :
+    ∃ v, binVal .shr a b = .val v ∧ v.IsN (shlSpec a.den (-b.den)) a.Normal := by
+  cases a <;> cases b <;> simp only [IntV.den] at hn ⊢
+  · obtain ⟨v, hv, hi⟩ := S.rshSmall_spec _ _ hn.1; exact ⟨v, hv, is_isN hi⟩
+  · obtain ⟨v, hv, hi⟩ := S.rshBig_spec _ _ hn; exact ⟨v, hv, is_isN hi⟩
+  · exact B.rshSmall_spec _ _ hn.1
+  · exact B.rshBig_spec _ _ hn
+
+/-! ### bitwise operators: bit by bit -/
+
+
+
+theorem natAndNot_testBit (m n i : Nat) : (natAndNot m n).testBit i = (m.testBit i && !n.testBit i) := by
+  unfold natAndNot
+  rw [Nat.testBit_bitwise (by rfl)]
+
+theorem tbit_land (a b : Int) (i : Nat) : tbit (land a b) i = (tbit a i && tbit b i) := by
+  cases a <;> cases b <;> simp [land, tbit, natAndNot_testBit, Bool.and_comm]
+
+theorem tbit_lor (a b : Int) (i : Nat) : tbit (lor a b) i = (tbit a i || tbit b i) := by
+  cases a <;> cases b <;> simp [lor, tbit, natAndNot_testBit, Bool.or_comm]
+
+theorem tbit_lxor (a b : Int) (i : Nat) : tbit (lxor a b) i = (tbit a i ^^ tbit b i) := by
+  cases a <;> cases b <;> simp [lxor, tbit]
+
+theorem tbit_not (a : Int) (i : Nat) : tbit (~~~a) i = !tbit a i := by
+  cases a <;> simp [tbit, Complement.complement, Int.not]
+
+theorem tbit_landNot (a b : Int) (i : Nat) : tbit (landNot a b) i = (tbit a i && !tbit b i) := by
+  rw [landNot, tbit_land, tbit_not]
+
+/-- the bits determine the integer -/
+theorem tbit_ext (a b : Int) (h : ∀ i, tbit a i = tbit b i) : a = b := by
+  cases a with
+  | ofNat m =>
+    cases b with
+    | ofNat n => congr 1; exact Nat.eq_of_testBit_eq h
+    | negSucc n =>
+      exfalso
+      have := h (m + n)
+      simp only [tbit] at this
+      rw [Nat.testBit_lt_two_pow (Nat.lt_of_le_of_lt (Nat.le_add_right m n) Nat.lt_two_pow_self),
+        Nat.testBit_lt_two_pow (Nat.lt_of_le_of_lt (Nat.le_add_left n m) Nat.lt_two_pow_self)] at this
+      cases this
+  | negSucc m =>
+    cases b with
+    | ofNat n =>
+      exfalso
+      have := h (m + n)
+      simp only [tbit] at this
+      rw [Nat.testBit_lt_two_pow (Nat.lt_of_le_of_lt (Nat.le_add_right m n) Nat.lt_two_pow_self),
+        Nat.testBit_lt_two_pow (Nat.lt_of_le_of_lt (Nat.le_add_left n m) Nat.lt_two_pow_self)] at this
+      cases this
+    | negSucc n =>
+      congr 1
+      apply Nat.eq_of_testBit_eq
+      intro i
+      have := h i
+      simp only [tbit] at this
+      cases h1 : m.testBit i <;> cases h2 : n.testBit i <;> simp_all
+
+/-- bit `i` of a word read as a signed integer: the word's bit, the sign beyond bit 63 -/
+theorem tbit_toInt (x : I64) (i : Nat) : tbit x.toInt i = if i < 64 then x.getLsbD i else x.msb := by
+  rw [BitVec.toInt_eq_msb_cond]
+  cases hm : x.msb with
+  | false =>
+    simp only [Bool.false_eq_true, if_false]
+    show tbit (Int.ofNat x.toNat) i = _
+    simp only [tbit]
+    split
+    · rfl
+    · have := BitVec.toNat_lt_of_msb_false hm
+      apply Nat.testBit_lt_two_pow
+      exact Nat.lt_of_lt_of_le this (Nat.pow_le_pow_right (by decide) (by omega))
+  | true =>
+    simp only [if_true]
+    have hge := BitVec.toNat_ge_of_msb_true hm
+    have hlt := x.isLt
+    have e : ((x.toNat : Int) - ((2^64 : Nat) : Int)) = Int.negSucc (2^64 - (x.toNat + 1)) := by
+      rw [Int.negSucc_eq]; omega
+    rw [e]
+    simp only [tbit]
+    rw [Nat.testBit_two_pow_sub_succ hlt]
+    split
+    · rename_i h; simp [h, BitVec.getLsbD]
+    · rename_i h; simp [h]
+
+
+theorem toInt_and (x y : I64) : (x &&& y).toInt = land x.toInt y.toInt := by
+  apply tbit_ext; intro i
+  rw [tbit_land, tbit_toInt, tbit_toInt, tbit_toInt]
+  split <;> simp
+
+theorem toInt_or (x y : I64) : (x ||| y).toInt = lor x.toInt y.toInt := by
+  apply tbit_ext; intro i
+  rw [tbit_lor, tbit_toInt, tbit_toInt, tbit_toInt]
+  split <;> simp
+
+theorem toInt_xor (x y : I64) : (x ^^^ y).toInt = lxor x.toInt y.toInt := by
+  apply tbit_ext; intro i
+  rw [tbit_lxor, tbit_toInt, tbit_toInt, tbit_toInt]
+  split <;> simp
+
+theorem toInt_andNot (x y : I64) : (x &&& ~~~y).toInt = landNot x.toInt y.toInt := by
+  apply tbit_ext; intro i
+  rw [tbit_landNot, tbit_toInt, tbit_toInt, tbit_toInt]
+  split
+  · rename_i h; simp [h]
+  · simp
+
+theorem binVal_and (a b : IntV) : ∃ v, binVal .and a b = .val v ∧ v.Is (land a.den b.den) := by
+  cases a <;> cases b <;> refine ⟨_, rfl, ?_⟩
+  · exact small_is _ _ (toInt_and _ _)
+  all_goals exact ofBig_is _
+
+theorem binVal_or (a b : IntV) : ∃ v, binVal .or a b = .val v ∧ v.Is (lor a.den b.den) := by
+  cases a <;> cases b <;> refine ⟨_, rfl, ?_⟩
+  · exact small_is _ _ (toInt_or _ _)
+  all_goals exact ofBig_is _
+
+theorem binVal_xor (a b : IntV) : ∃ v, binVal .xor a b = .val v ∧ v.Is (lxor a.den b.den) := by
+  cases a <;> cases b <;> refine ⟨_, rfl, ?_⟩
+  · exact small_is _ _ (toInt_xor _ _)
+  all_goals exact ofBig_is _
+
+theorem binVal_andNot (a b : IntV) : ∃ v, binVal .andNot a b = .val v ∧ v.Is (landNot a.den b.den) := by
+  cases a <;> cases b <;> refine ⟨_, rfl, ?_⟩
+  · exact small_is _ _ (toInt_andNot _ _)
+  all_goals exact ofBig_is _
+
+/-- `tbit` is the arithmetic bit: `⌊a / 2^i⌋` is odd -/
+theorem tbit_eq_shift (a : Int) (i : Nat) : tbit a i = decide ((a >>> i) % 2 = 1) := by
+  cases a with
+  | ofNat m =>
+    simp only [tbit]
+    show m.testBit i = decide (((m >>> i : Nat) : Int) % 2 = 1)
+    rw [Nat.testBit, Nat.one_and_eq_mod_two]
+    generalize m >>> i = q
+    by_cases h : q % 2 = 1
+    · have : ((q : Int) % 2 = 1) := by omega
+      simp [h, this]
+    · have : ¬ ((q : Int) % 2 = 1) := by omega
+      simp [h, this]
+  | negSucc m =>
+    simp only [tbit]
+    rw [Int.negSucc_shiftRight, Nat.testBit, Nat.one_and_eq_mod_two, Int.negSucc_eq]
+    generalize m >>> i = q
+    by_cases h : q % 2 = 1
+    · have : ¬ ((-((q : Int) + 1)) % 2 = 1) := by omega
+      rw [decide_eq_false this, h]; rfl
+    · have : ((-((q : Int) + 1)) % 2 = 1) := by omega
+      have h0 : q % 2 = 0 := by omega
+      rw [decide_eq_true this, h0]; rfl
+
+
 /-! ### the dispatchers: every representation pair -/
 
 theorem is_unique {v w : IntV} {z : Int} (hv : v.Is z) (hw : w.Is z) : v = w :=
